@@ -105,6 +105,7 @@ fn fen_mutants(base: &str, out: &mut Vec<String>) {
 
 fn judge_fen_string(rep: &Reporter, s: &str, counters: &[AtomicU64; 4]) {
     let class = classify(s);
+    rep.sample(|| json!({"fen_string": s, "reference_class": format!("{:?}", class).chars().take(80).collect::<String>()}));
     let r_from_str = guarded(|| Fen::from_str(s).is_ok());
     let r_is_valid = guarded(|| Fen::is_valid(s));
     let r_board = guarded(|| Bitboard::from_fen_string(s));
@@ -342,6 +343,7 @@ fn err_kind(e: &MoveFromUciError) -> &'static str {
 fn c13_case(rep: &Reporter, p: &Pos, fen: &str, b: &mut Bitboard, before: &Snap, s: &str, legal: &[(String, Mv)], pseudo_illegal: &HashSet<String>) -> u64 {
     let trimmed = s.trim();
     let has_blanks = trimmed.len() != s.len();
+    rep.sample(|| json!({"fen": fen, "move_string": s, "apis": ["find_uci", "uci_to_pgn", "make_uci"]}));
     let denotes = legal.iter().find(|(u, _)| u == trimmed).map(|(_, m)| *m);
     // three-valued: blanks around an otherwise legal move are unspecified
     let must_ok = denotes.is_some() && !has_blanks;
@@ -679,6 +681,7 @@ fn c14_grammar_position(rep: &Reporter, p: &Pos, full: bool, n_strings: &AtomicU
             SanFields::Normal { piece: None, from_file, from_row, takes, .. } => from_row.is_none() && (from_file.is_some() == *takes),
         };
         let verdict = if standard_form { resolve_with(&table, &f) } else { SanVerdict::MustErr };
+        rep.sample(|| json!({"fen": fen, "san_string": text, "reference_verdict": format!("{:?}", verdict).chars().take(60).collect::<String>(), "standard_form": standard_form}));
         let r = guarded(|| b.pgn_to_bb(&text));
         let case = |extra: Value| json!({"kind": "san_string", "fen": fen, "input": text, "verdict": format!("{:?}", verdict).chars().take(40).collect::<String>(), "detail": extra});
         match r {
